@@ -179,6 +179,7 @@ SEV_HANDLER(ccode)
     for (size_t i = 0; i < n; i++) {
         J o = J::obj();
         o.set("bexc", bexc[i]);
+        o.set("e", es[i].is_null() ? term("Null") : dump(es[i])); // the object that is printed
         J lib = J::obj();
         J lv = term("Null");
         lib.set("exc", es[i].is_null() ? std::string("-") : guarded([&] { lv = dump_double(eval_double(*es[i]->subs(m))); }));
